@@ -254,6 +254,19 @@ impl<R: RTraits> TileManager<R> {
     }
 }
 
+#[cfg(feature = "verif")]
+impl<R> TileManager<R> {
+    /// (verification hook) sizes of the three internal maps and the total number of id references
+    pub(crate) fn verif_store_counts(&self) -> (usize, usize, usize, usize) {
+        (
+            self.tile_by_id.len(),
+            self.data_by_hash.len(),
+            self.ids_by_hash.len(),
+            self.ids_by_hash.values().map(HashSet::len).sum(),
+        )
+    }
+}
+
 impl Default for TileManager<Cursor<&[u8]>> {
     fn default() -> Self {
         Self::new(None)
